@@ -1723,15 +1723,15 @@ fn tokens_depth(fl: char, toks: &[String]) -> Option<usize> {
 }
 
 fn pick_depth(rng: &mut Rng, dv: usize, fl: char) -> usize {
-    match rng.below(12) {
-        0 => 0,
-        1 => 1,
-        2 | 3 => dv.saturating_sub(1),
-        4 | 5 | 6 => dv,
-        7 => dv + 1,
-        8 => default_depth(fl),
-        9 => 255,
-        _ => rng.below(67) as usize,
+    match rng.below(48) {
+        0 => 0, // the known-finding class (max_depth = 0): a small share
+        1 | 2 => 1,
+        3..=9 => dv.saturating_sub(1).max(1),
+        10..=23 => dv.max(1),
+        24..=29 => dv + 1,
+        30..=39 => default_depth(fl),
+        40..=43 => 255,
+        _ => 1 + rng.below(66) as usize,
     }
 }
 
